@@ -499,11 +499,12 @@ def nativeCall (sub : SubRun) (g : G) (c : Nat) (name : String) (selfTag selfAdd
   else if selfTag == 2 then
     let kv := g.heap.dictOf selfAddr
     if name == "Dict.len" then (g, .ok (.int kv.length))
-    else if kv.length ≥ 2 then (g, .unsup "dict iteration order")
+    -- iteration is in key order (ValueMap.Range)
     else if name == "Dict.keys" then
-      let (h', addr) := g.heap.alloc (.arr (kv.map (fun p => Val.str p.1))); ({ g with heap := h' }, .ok (.arr addr))
+      let (h', addr) := g.heap.alloc (.arr ((sortEntries kv).map (fun p => Val.str p.1))); ({ g with heap := h' }, .ok (.arr addr))
     else if name == "Dict.values" then
-      let (h', addr) := g.heap.alloc (.arr (kv.map (·.2))); ({ g with heap := h' }, .ok (.arr addr))
+      let (h', addr) := g.heap.alloc (.arr ((sortEntries kv).map (·.2))); ({ g with heap := h' }, .ok (.arr addr))
+    else if kv.length ≥ 2 then (g, .unsup "dict items of several entries")
     else if name == "Dict.items" then
       (match kv with
        | [] => let (h', addr) := g.heap.alloc (.arr []); ({ g with heap := h' }, .ok (.arr addr))
